@@ -5,6 +5,7 @@ import (
 	"sort"
 
 	"go.etcd.io/bbolt/zverif/apix"
+	"go.etcd.io/bbolt/zverif/boltfmt"
 	"go.etcd.io/bbolt/zverif/hx"
 	"go.etcd.io/bbolt/zverif/refmodel"
 )
@@ -45,9 +46,95 @@ var Seeds = map[string]hx.Seed{
 		op("mkb", nil, "p\x00q", ""), op("put", P("p\x00q"), "a", "s"), op("put", P("p\x00q"), "c", "s"), op("mkb", P("p\x00q"), "r", ""), op("put", P("p\x00q", "r"), "d", "s"),
 		op("mkb", nil, "p/q", ""), op("put", P("p/q"), "e", "s"), op("mkb", P("p"), "q\x00", ""), op("put", P("p", "q\x00"), "f", "s"), op("mkb", P("p", "q"), "r", ""), op("put", P("p", "q", "r"), "g", "M"),
 		op("mkb", nil, "pq", ""), op("put", P("pq"), "h\x00", "s"), op("put", P("pq"), "h", "s"), {K: "seqset", P: P("p\x00q"), N: 5}, commit}},
-	"freeruns": {Name: "freeruns", Prog: []apix.Op{beginW, op("mkb", nil, "p", ""), {K: "fill", P: P("p"), Key: "k", V: "M", N: 12}, commit,
+	// everything above the live pages is one long free run (this was called "freeruns" until the structural expectations
+	// showed it has a single run)
+	"allfree": {Name: "allfree", Prog: []apix.Op{beginW, op("mkb", nil, "p", ""), {K: "fill", P: P("p"), Key: "k", V: "M", N: 12}, commit,
 		beginW, op("mkb", nil, "q", ""), {K: "fill", P: P("q"), Key: "k", V: "X", N: 3}, commit,
 		beginW, {K: "drain", P: P("p")}, commit, beginW, op("put", P("p"), "a", "s"), op("delb", nil, "q", ""), commit}},
+	// at least three separate runs of free pages: five paged buckets are laid out one after the other, the second and the
+	// fourth are deleted, and one more commit releases their pages (the churn of root / freelist pages adds a low run)
+	"freeruns": {Name: "freeruns", Prog: []apix.Op{beginW, op("mkb", nil, "p", ""), {K: "fill", P: P("p"), Key: "k", V: "M", N: 6}, commit,
+		beginW, op("mkb", nil, "q", ""), {K: "fill", P: P("q"), Key: "k", V: "X", N: 3}, commit,
+		beginW, op("mkb", nil, "r", ""), {K: "fill", P: P("r"), Key: "k", V: "M", N: 6}, commit,
+		beginW, op("mkb", nil, "s", ""), {K: "fill", P: P("s"), Key: "k", V: "X", N: 3}, commit,
+		beginW, op("mkb", nil, "t", ""), {K: "fill", P: P("t"), Key: "k", V: "M", N: 6}, commit,
+		beginW, op("delb", nil, "q", ""), op("delb", nil, "s", ""), commit,
+		beginW, op("put", P("p"), "a", "s"), commit}},
+}
+
+// seedExpect: what each seed must structurally contain (checked every time a seed file is built).
+func init() {
+	branchOverBranch := func(st *boltfmt.State) bool {
+		for _, p := range st.Pages {
+			if p.Kind != boltfmt.UseBranch {
+				continue
+			}
+			for _, c := range p.Children {
+				if cp := st.Pages[c]; cp != nil && cp.Kind == boltfmt.UseBranch {
+					return true
+				}
+			}
+		}
+		return false
+	}
+	branchWithOverflow := func(st *boltfmt.State) bool {
+		for _, p := range st.Pages {
+			if p.Kind == boltfmt.UseBranch && p.Overflow > 0 {
+				return true
+			}
+		}
+		return false
+	}
+	pagedBuckets := func(st *boltfmt.State) int {
+		n := 0
+		for _, p := range st.Pages {
+			n += len(p.BucketRoots)
+		}
+		return n
+	}
+	freeRuns := func(st *boltfmt.State) int {
+		ids := append([]uint64{}, st.FreeIDs...)
+		sort.Slice(ids, func(i, j int) bool { return ids[i] < ids[j] })
+		runs := 0
+		for i, id := range ids {
+			if i == 0 || ids[i-1]+1 != id {
+				runs++
+			}
+		}
+		return runs
+	}
+	set := func(name string, f func(st *boltfmt.State, ps int) string) {
+		s := Seeds[name]
+		s.Expect = f
+		Seeds[name] = s
+	}
+	need := func(ok bool, what string) string {
+		if ok {
+			return ""
+		}
+		return what
+	}
+	set("inline", func(st *boltfmt.State, ps int) string { return need(st.NInline >= 1, "no inline bucket") })
+	set("leaf", func(st *boltfmt.State, ps int) string { return need(st.NBranch == 0 && pagedBuckets(st) >= 1, "not a single paged leaf") })
+	set("twolevel", func(st *boltfmt.State, ps int) string { return need(st.NBranch >= 1 && !branchOverBranch(st), "not a two-level tree") })
+	set("threelevel", func(st *boltfmt.State, ps int) string { return need(branchOverBranch(st), "no branch page below a branch page") })
+	set("overflow", func(st *boltfmt.State, ps int) string { return need(st.NOverflow >= 2, "no overflow pages") })
+	set("nested", func(st *boltfmt.State, ps int) string {
+		return need(pagedBuckets(st) >= 3 && st.NInline >= 1, "needs paged nested buckets and an inline one")
+	})
+	set("bigkeys", func(st *boltfmt.State, ps int) string { return need(branchWithOverflow(st), "no branch page with overflow pages") })
+	set("bigfree", func(st *boltfmt.State, ps int) string {
+		if ps != 1024 || st.Meta.Freelist == boltfmt.NoFreelist {
+			return "" // the list only outgrows a page at 1 KiB pages (and only a persisted list occupies pages)
+		}
+		return need(len(st.FLPages) >= 2, "freelist fits one page")
+	})
+	set("freeruns", func(st *boltfmt.State, ps int) string {
+		if st.Meta.Freelist == boltfmt.NoFreelist {
+			return ""
+		}
+		return need(freeRuns(st) >= 3, fmt.Sprintf("%d free runs, 3 intended", freeRuns(st)))
+	})
 }
 
 // bucketPaths lists the bucket paths existing in the model, up to the given depth, restricted to the names.
